@@ -130,4 +130,12 @@ theorem moveSelected_moves (sel : Sel) (g : Vec3 Rat → Vec3 Rat) (db : List At
   · intro h; simp [h]
   · intro h; simp [h]
 
+theorem about_comm (M : Mat3 ℚ) (c p : Vec3 ℚ) :
+    Vec3.add (M.mulVec (Vec3.sub p c)) c = about M.mulVec c p := by
+  ext <;> simp only [about, Vec3.add] <;> ring
+
+theorem sameAttrs_refl (a : Atom) : SameAttrs a a := rfl
+theorem sameAttrs_trans {a b c : Atom} (h1 : SameAttrs a b) (h2 : SameAttrs b c) : SameAttrs a c := by
+  unfold SameAttrs at *; rw [h2, h1]
+
 end Proofs.Tr
